@@ -107,7 +107,7 @@ func (l *layout) semProfiles(ingress bool) [][]M {
 }
 
 // renderEndpoint renders everything an endpoint's chains can reach and emits one case per endpoint chain.
-func renderEndpoint(log *tracelog.Log, t *int, l *layout, cfg rules.Config, nft bool, ipv uint8, sets []*polgen.IPSet, origin string) error {
+func renderEndpoint(log *tracelog.Log, t *int, l *layout, cfg rules.Config, nft bool, ipv uint8, sets []*polgen.IPSet, origin string, dirFilter int) error {
 	rr := rules.NewRenderer(cfg, nft)
 	prog := nfparse.NewProgram(flavourName(nft))
 	add := func(cs ...*generictables.Chain) error {
@@ -191,6 +191,9 @@ func renderEndpoint(log *tracelog.Log, t *int, l *layout, cfg rules.Config, nft 
 		deny = "reject"
 	}
 	for _, e := range entries {
+		if (dirFilter == 1 && !e.ingress) || (dirFilter == 2 && e.ingress) {
+			continue
+		}
 		log.Reset(*t, M{
 			"kind": "c09", "origin": origin, "flavour": prog.Flavour, "ipv": int(ipv), "ep": l.Kind, "entry": e.chain,
 			"ingress": e.ingress, "ctype": e.ctype, "tiers": l.semTiers(e.ingress), "profiles": l.semProfiles(e.ingress),
@@ -407,7 +410,7 @@ func runC09(env tracelog.Env, log *tracelog.Log) error {
 		cfg := baseConfig()
 		cfg.FlowLogsEnabled = i%2 == 1
 		l := layoutFromBeh(beh[0], ipv)
-		if err := renderEndpoint(log, &t, l, cfg, (i/2)%2 == 1, ipv, nil, "tlc"); err != nil {
+		if err := renderEndpoint(log, &t, l, cfg, (i/2)%2 == 1, ipv, nil, "tlc", 1+(i/8)%2); err != nil {
 			return fmt.Errorf("layout %d: %v", i, err)
 		}
 	}
@@ -428,7 +431,7 @@ func runC09(env tracelog.Env, log *tracelog.Log) error {
 			cfg.FilterAllowAction = "RETURN"
 		}
 		for _, nft := range []bool{false, true} {
-			if err := renderEndpoint(log, &t, l, cfg, nft, ipv, sg.Sets(), "seeded"); err != nil {
+			if err := renderEndpoint(log, &t, l, cfg, nft, ipv, sg.Sets(), "seeded", 0); err != nil {
 				return fmt.Errorf("seeded layout %d: %v", i, err)
 			}
 		}
